@@ -213,7 +213,7 @@ CFG = {
     "prop_file": "Properties/C12.v",
     "run_modules": ["Verif.C12.Run"],
     "coq_dirs": ["C12"],
-    "n": {"quick": 5000, "thorough": 400000},
+    "n": {"quick": 5000, "thorough": 200000},
     "shard": 320,
     "level": "proof",
     "stages": [stage],
@@ -255,7 +255,7 @@ CFG = {
                  "proved to minimise the error and take the larger n on ties for every digit count; shortest(x) is proved total (17 digits "
                  "suffice), to parse back to x, and minimal: no decimal with fewer digits, whatever its digits and exponent, parses to x; the "
                  "toString(radix) validator is proved sound; the layout branches are proved equal to the ECMA-262 steps. goja is tied to these "
-                 "functions on every run: 5000 (quick) / 400000 (thorough) generated conversions incl. big-integer halfway cases up to 1200 "
+                 "functions on every run: 5000 (quick) / 200000 (thorough) generated conversions incl. big-integer halfway cases up to 1200 "
                  "digits are executed on /repo and recomputed by vm_compute."),
         "note": ("trusted: Coq kernel + vm_compute; the hand-written specification functions (layouts and grammars are definitions, not "
                  "theorems); the Go harness; goja's dtoa/Grisu code itself is covered by correspondence on samples, not by proof"),
